@@ -36,6 +36,30 @@ class GetAttr:
         raise AttributeError(name)
 
 
+_T = __import__("typing").TypeVar("_T")
+
+
+class GenHook(__import__("typing").Generic[_T]):
+    """a user-defined generic class whose instances journal every attribute read (created bare and as GenHook[int](...))"""
+    def __init__(self, label="v"):
+        object.__setattr__(self, "_label", label)
+
+    def __getattribute__(self, name):
+        if name != "_label":
+            note("__getattribute__", name, object.__getattribute__(self, "_label"))
+        return object.__getattribute__(self, name)
+
+
+class GenLazy(__import__("typing").Generic[_T]):
+    """a lazy proxy written as a generic class: reading any attribute it does not have forces the load"""
+    def __init__(self, label="v"):
+        self._label = label
+
+    def __getattr__(self, name):
+        note("__getattr__", name, self.__dict__.get("_label"))
+        raise AttributeError(name)
+
+
 class ClassProp:
     def __init__(self, label="v"):
         self._label = label
@@ -281,10 +305,11 @@ _dd = __import__("collections").defaultdict
 CATALOGUE = {
     "FactoryDD": lambda: _dd(Ctor), "FactoryDD1": lambda: _dd(Ctor, {"a": 1}), "FactoryFn": lambda: _dd(journaling_factory),
     "CtorCls": lambda: Ctor, "JIter": lambda: JIter("v"),
+    "GenHook": lambda: GenHook("v"), "GenHookSub": lambda: GenHook[int]("v"), "GenLazy": lambda: GenLazy("v"),
     "Hookable": lambda: Hookable("v"), "GetAttr": lambda: GetAttr("v"), "ClassProp": lambda: ClassProp("v"),
     "WithDesc": lambda: WithDesc("v"), "Proto": lambda: Proto("v"), "CallableObj": lambda: CallableObj("v"),
     "TList": lambda: TList([1, 2]), "DrainList": lambda: DrainList([1, 2, 3]), "TDict": lambda: TDict(a=1), "TSet": lambda: TSet({1}),
     "TTuple": lambda: TTuple((1, 2)), "TDefaultDict": lambda: TDefaultDict(list, a=[1]),
     "M1": lambda: M1(), "M1cls": lambda: M1, "H1": lambda: H1(), "H2": lambda: H2(), "H1cls": lambda: H1,
 }
-HASHABLE = {"CtorCls", "JIter", "Hookable", "GetAttr", "ClassProp", "WithDesc", "Proto", "CallableObj", "TTuple", "M1", "M1cls", "H1", "H2", "H1cls"}
+HASHABLE = {"GenHook", "GenHookSub", "GenLazy", "CtorCls", "JIter", "Hookable", "GetAttr", "ClassProp", "WithDesc", "Proto", "CallableObj", "TTuple", "M1", "M1cls", "H1", "H2", "H1cls"}
